@@ -71,6 +71,9 @@ class NativeSym:
     def str(self, name):
         return str(self._get(name, ""))
 
+    def func(self, name, arity=1):
+        return lambda *a: 2.0 * a[0] + 1.0
+
     def list(self, name, kind, all=None, pair=None, adj=None, env=None, is_tuple=False):
         from praatio.utilities.constants import Interval, Point
         m = self._get(name, {"len": 0, "at": {}})
